@@ -578,14 +578,14 @@ def expr_regex(c):
         name = f[3:]
         return ('%s.%s($.s)' % (rx, name)) if st is None else ('%s.%s($.s, %s)' % (rx, name, st)), data
     if f == 're.split':
-        cnt = ['', ', $.n', ', maxSplit => $.n'][form // 2 % 3] if c['count'] else ['', ', $.n'][form // 2 % 2]
+        cnt = ['', ', $.n', ', maxSplit => $.n'][form // 2 % 3 if c['count'] == 0 else 1 + form // 2 % 2]
         return ['%s.split($.s%s)' % (rx, cnt), '$.s.split(%s%s)' % (rx, cnt)][form // 6 % 2], data
     if f == 're.replace':
         data['r'] = template_text(c['repl'])
-        cnt = ['', ', $.n', ', count => $.n'][form // 2 % 3] if c['count'] else ['', ', $.n'][form // 2 % 2]
+        cnt = ['', ', $.n', ', count => $.n'][form // 2 % 3 if c['count'] == 0 else 1 + form // 2 % 2]
         return ['%s.replace($.s, $.r%s)' % (rx, cnt), '$.s.replace(%s, $.r%s)' % (rx, cnt)][form // 6 % 2], data
     if f == 're.replaceBy':
-        cnt = ['', ', $.n', ', count => $.n'][form // 2 % 3] if c['count'] else ['', ', $.n'][form // 2 % 2]
+        cnt = ['', ', $.n', ', count => $.n'][form // 2 % 3 if c['count'] == 0 else 1 + form // 2 % 2]
         return ['%s.replaceBy($.s, %s%s)' % (rx, st, cnt), '$.s.replaceBy(%s, %s%s)' % (rx, st, cnt)][form // 6 % 2], data
     raise KeyError(f)
 
@@ -734,7 +734,7 @@ def shrink(c, drv, kind):
 
 A_CORE = ['a', 'b', ' ', ',']
 A_UNI = ['é', 'É', 'ß', 'Д', 'д', 'İ', 'ŉ', 'µ', 'A', 'Z', 'z']
-A_WS = ['\t', '\n', ' ', ' ', ' ', '\x1c', '\x0b']
+A_WS = ['\t', '\n', '\u00a0', '\u2003', '\u1680', '\x1c', '\x0b']
 
 
 def all_strings(alpha, maxlen):
@@ -841,7 +841,7 @@ def gen_string_cases(rng, n):
                                ('hex', [rng.choice([0, 1, -1, 255, -255, 4096, 10 ** 20, None])])])
         elif r < 0.79:
             f = rng.choice(['concat', '+'])
-            a = [rstr(rng, 3) for _ in range(2 if f == '+' else rng.randrange(0, 4))]
+            a = [rstr(rng, 3) for _ in range(2 if f == '+' else rng.randrange(1, 4))]
         elif r < 0.84:
             f = '*'
             a = [rstr(rng, 3), rng.randrange(-2, 5)]
@@ -955,7 +955,7 @@ def run(env, res):
             feats[ft] = feats.get(ft, 0) + 1
         subject = c['s'] if f.startswith('re.') else next((x for x in c['a'] if isinstance(x, str)), '')
         text, data = case_expr(c)
-        res.case(common.digest([text, data]), nontrivial=bool(subject),
+        res.case(common.digest(repr((text, data))), nontrivial=bool(subject),
                  sample=dict(expr=text, data=data, result=show(real)) if k % 2999 == 0 else None)
         if mod is not None:
             res.traces += 1
